@@ -50,6 +50,7 @@ inductive V
   | ofKmer (k : Nat) (s : S)
   | cloneOf (v : V)
   | fromBits (off : Nat) (v : V)
+  | vecWords (ws : List Nat)
 inductive S
   | val (v : V)
   | sl (f : Seq.RangeForm) (a b : Nat) (s : S)
@@ -183,6 +184,12 @@ partial def parseVKw (k : String) : P V := do
     for _ in [0:cnt] do
       ws := ws ++ [← num]
     pure (.fromWords n ws)
+  | "vecwords" =>
+    let cnt ← num
+    let mut ws := []
+    for _ in [0:cnt] do
+      ws := ws ++ [← num]
+    pure (.vecWords ws)
   | "ofkmer" => let k ← num; let s ← parseS; pure (.ofKmer k s)
   | "clone" => pure (.cloneOf (← parseV))
   | "frombits" => let off ← num; let v ← parseV; pure (.fromBits off v)
@@ -303,6 +310,9 @@ partial def evalV (x : Ctx) : V → R Bits
     match Seq.fromRaw x.c n ws with
     | some r => pure r
     | none => .error .noneVal
+  | .vecWords ws =>
+    -- `From<Vec<usize>> for Seq<text::Dna>`: the words' bits, whole
+    if x.name = "text" then pure (bitsOfWords (ws.map (· % 2^64))) else .error .unsup
   | .ofKmer k s => do
     let bs ← evalS x s
     if k = 0 ∨ k > 64 then .error .unsup else
@@ -574,6 +584,10 @@ def query (x : Ctx) (q : String) : Q String := do
   | "usize" => do
     let s ← qlift parseS; let bs ← qr (evalS x s)
     let r ← qres (Seq.toUsize bs); pure (toString r)
+  | "showv" => do
+    let v ← qlift parseV; let bs ← qr (evalV x v)
+    let d := displayHex x bs
+    if d = "panic" then pure "panic" else pure s!"{showS x bs} {d} {d} {d} {d}"
   | "usizev" => do
     let v ← qlift parseV; let bs ← qr (evalV x v)
     let r ← qres (Seq.ownedToUsize bs); pure (toString r)
@@ -615,7 +629,11 @@ def query (x : Ctx) (q : String) : Q String := do
     let a ← qlift parseV; let l ← qr (evalV x a)
     let b ← qlift parseV; let r ← qr (evalV x b)
     if ¬ isOrd x.name then throw .unsup
-    pure (ordStr (Seq.cmp l r))
+    -- Ord::cmp, PartialOrd::partial_cmp, <, <=, >, >=, Ord::max (second argument unless the first is greater), Ord::min
+    let o := Seq.cmp l r
+    let mx := if o == .gt then l else r
+    let mn := if o == .gt then r else l
+    pure s!"{ordStr o} {ordStr o} {boolStr (o == .lt)} {boolStr (o != .gt)} {boolStr (o == .gt)} {boolStr (o != .lt)} {content c mx} {content c mn}"
   | "serde" => do
     let v ← qlift parseV; let bs ← qr (evalV x v)
     let r := Serde.ser bs
@@ -747,7 +765,11 @@ def query (x : Ctx) (q : String) : Q String := do
     let forms :=
       if ¬ isSym then "-"
       else if x.name = "miupac" then s!"{h (c.mask b)}{h (c.unmask b)}"
-      else if x.name = "dna" ∨ x.name = "iupac" ∨ x.name = "mdna" then h (c.comp b)
+      else if x.name = "dna" ∨ x.name = "mdna" then h (c.comp b)
+      -- `From<Iupac> for u8`, `From<Amino> for u8`, `From<text::Dna> for u8` are the symbol's code; `Display for Amino` its character
+      else if x.name = "iupac" then s!"{h (c.comp b)}{hex2 b}"
+      else if x.name = "amino" then s!"{hex2 b}{utf8Hex [c.toChar b]}"
+      else if x.name = "text" then hex2 b
       else "-"
     pure s!"{c.width} {o (c.tryFromBits b)} {u (c.unsafeFromBits b)} {o (c.tryFromAscii b)} {u (c.unsafeFromAscii b)} {c.toChar b} {un (hasComp c) c.comp} {un (hasMask c) c.mask} {un (hasMask c) c.unmask} {forms}"
   | "items" => pure (String.join (c.items.map hex2))
